@@ -19,10 +19,16 @@ import (
 func configVariants(scs []engine.Scenario, tier string, which ...string) []engine.Scenario {
 	if tier != "thorough" {
 		// quick tier: only the fault variant, and only of the first scenario given
-		if len(scs) == 0 || !contains(which, "faults") {
+		fv := ""
+		for _, v := range which {
+			if v == "faults" || strings.HasPrefix(v, "faults:") {
+				fv = v
+			}
+		}
+		if len(scs) == 0 || fv == "" {
 			return nil
 		}
-		scs, which = scs[:1], []string{"faults"}
+		scs, which = scs[:1], []string{fv}
 	}
 	var out []engine.Scenario
 	for _, sc := range scs {
@@ -52,11 +58,23 @@ func configVariants(scs []engine.Scenario, tier string, which ...string) []engin
 				c.Cfg.NoMount = true
 			case "faults":
 				// every request that presents a valid credential also runs with a storage failure at
-				// its first Load / Save / token-table call
+				// its first or its second Load / Save, or its first token-table call
 				orig := sc.Actions
 				c.Actions = func(s *world.Stack, w *world.World) []engine.Action {
 					acts := orig(s, w)
-					return append(acts, withFaults(acts, validCredentialMarkers, []string{"db.Save", "db.Load", "db.AddRememberToken"})...)
+					return append(acts, withFaults(acts, validCredentialMarkers, []string{"db.Save", "db.Load", "db.AddRememberToken", "db.Save#2", "db.Load#2"})...)
+				}
+			default:
+				// "faults:<marker>|<marker>...": the same for the actions whose names contain one of the given markers
+				if !strings.HasPrefix(v, "faults:") {
+					panic("unknown variant " + v)
+				}
+				markers := strings.Split(strings.TrimPrefix(v, "faults:"), "|")
+				c.Name = base + "+faults"
+				orig := sc.Actions
+				c.Actions = func(s *world.Stack, w *world.World) []engine.Action {
+					acts := orig(s, w)
+					return append(acts, withFaults(acts, markers, []string{"db.Save", "db.Load", "db.Save#2", "db.Load#2"})...)
 				}
 			}
 			if c.Depth > 3 {
